@@ -17,6 +17,7 @@ import (
 //   ; S epoch block id w ...               sealing rule
 //   ; E i epoch creator seq lamport frame p1 p2 ...   event definition (parents = event numbers, self-parent first)
 //   ; P i | X i f | B ep cr seq lam p.. | b ep cr seq lam p.. | R | RESET ep id w .. | M i | G f
+//   ; Y n ep cr seq lam frame p..          Process of an inline "ghost" event (id tail n) that is defined nowhere else
 //   ; ALTFROM ep id w ..                   (C09 only; no-op marker) the reference instance starts here
 // The second (reference) instance of the differential properties is DERIVED from the op list:
 //   C07: the ops without the injected ones (b, X);  C08: without R;
@@ -175,7 +176,7 @@ func AltGroups(mix string, groups [][]string) [][]string {
 	switch mix {
 	case "C07":
 		for _, g := range groups {
-			if g[0] != "b" && g[0] != "X" {
+			if g[0] != "b" && g[0] != "X" && g[0] != "Y" {
 				out = append(out, g)
 			}
 		}
@@ -278,6 +279,39 @@ func execOne(sc *Scenario, groups [][]string, stat func(string)) []string {
 				if b.Seal != nil {
 					stat("seal")
 				}
+			}
+			toks := append([]string{res}, r.blocksTok(bl)...)
+			if !inst.Dead {
+				toks = append(toks, tail()...)
+			}
+			emit(toks...)
+		case "Y":
+			if len(g) < 7 {
+				emit("nodef")
+				break
+			}
+			d := &EvDef{N: int(pu(g[1])), Epoch: pu(g[2]), Creator: pu(g[3]), Seq: pu(g[4]), Lamport: pu(g[5])}
+			okp := true
+			for _, p := range g[7:] {
+				pn := int(pu(p))
+				if _, def := r.defs[pn]; !def {
+					okp = false
+				}
+				d.Parents = append(d.Parents, pn)
+			}
+			if _, clash := r.defs[d.N]; clash || !okp {
+				emit("nodef")
+				break
+			}
+			ge := r.mk(d, pu(g[6]))
+			if _, known := r.num[ge.ID()]; !known {
+				r.num[ge.ID()] = d.N
+			}
+			res, bl := inst.Process(ge)
+			stat("op_Y_" + strings.SplitN(res, ":", 2)[0])
+			if strings.HasPrefix(res, "s") {
+				emit(res)
+				break
 			}
 			toks := append([]string{res}, r.blocksTok(bl)...)
 			if !inst.Dead {
